@@ -32,21 +32,25 @@ class Tracer:
         self.orig_make, self.orig_merge = H.Node.make_tagged_node, H.Node.merge_nodes
         tr = self
 
-        def make(identifier):
-            n = tr.orig_make(identifier)
+        # the wrappers take whatever the (private) factory methods take: which two live nodes a merge joins is read off its arguments
+        # by identity; if that cannot be done the trace is unobservable (counted in the evidence) and the tracer never interferes
+        def make(*a, **k):
+            n = tr.orig_make(*a, **k)
             tr.live.append(n)
             return n
 
-        def merge(identifier, left, right):
+        def merge(*a, **k):
             try:
-                i = [k for k, x in enumerate(tr.live) if x is left][0]
-                j = [k for k, x in enumerate(tr.live) if x is right][0]
+                hits = [q for x in list(a) + list(k.values()) for q, y in enumerate(tr.live) if y is x]
+                if len(hits) != 2 or hits[0] == hits[1]:
+                    raise IndexError
+                i, j = hits
                 tr.trace.append((i, j))
-                for k in sorted((i, j), reverse=True):
-                    tr.live.pop(k)
-            except IndexError:
+                for q in sorted((i, j), reverse=True):
+                    tr.live.pop(q)
+            except Exception:  # noqa
                 tr.ok = False
-            n = tr.orig_merge(identifier, left, right)
+            n = tr.orig_merge(*a, **k)
             tr.live.append(n)
             return n
         H.Node.make_tagged_node = staticmethod(make)
@@ -178,10 +182,16 @@ def run_group(ctx, edges, kind, ic, hier_kind, inputs, stream):
         reps = run_driver([{'op': 'argsort.replay', 'ids': ids, 'trace': [list(p) for p in trace]} for ids, trace, _ in cases])
         for (ids, trace, res), rep in zip(cases, reps):
             ctx.count('trace.replayed')
-            if rep is None or tuple(rep) != res:
+            schemes = [k for k in ('by_id', 'by_position') if isinstance(rep, dict) and rep.get(k) is not None and tuple(rep[k]) == res]
+            ctx.count('trace.replayed.agrees-with.' + ('+'.join(schemes) if schemes else 'NEITHER'))
+            if not schemes:
+                # the model replaying the observed merges gives another answer: the tie is broken. What the code returned was checked
+                # above and IS a permutation here, so this input does not fail the property: no failing input
                 ctx.violation(f'{kind}:trace-replay', {'case': {'kind': 'argsort', 'edges': [list(e) for e in edges], 'sorter': kind, 'ic': ic,
                                                                  'hierarchy': hier_kind, 'calls_on_this_sorter': [list(ids)]},
-                                                       'trace': trace, 'impl': list(res), 'model': rep, 'theorem': 'Hpv.Props.C13.permutation'})
+                                                       'trace': trace, 'impl': list(res), 'model': rep,
+                                                       'theorem': 'correspondence of Hpv.Sorting.argsort / argsortPos with HierarchicalSorting.argsort (Hpv.Props.C13.permutation / permutation_positions are proved about the two modelled schemes)'},
+                              no_input=True)
 
 
 def single_rooted(rng, n):
